@@ -44,7 +44,11 @@ func verifIslandFont16() *Font {
 		ScriptList:  map[language.Tag]*gtab.Features{language.MustParse("und-Zzzz"): {Required: 0, Optional: []gtab.FeatureIndex{}}},
 		FeatureList: []*gtab.Feature{{Tag: "kern", Lookups: []gtab.LookupIndex{1, 0, 1}}},
 		LookupList: gtab.LookupList{
-			{Meta: &gtab.LookupMetaInfo{LookupType: 2}, Subtables: []gtab.Subtable{gtab.Gpos2_1{glyph.Pair{Left: 1, Right: 2}: &gtab.PairAdjust{First: &gtab.GposValueRecord{XAdvance: -40}}}}},
+			// pairs with and without a second value record in one subtable (the encoder needs a common value format)
+			{Meta: &gtab.LookupMetaInfo{LookupType: 2}, Subtables: []gtab.Subtable{gtab.Gpos2_1{
+				glyph.Pair{Left: 1, Right: 2}: &gtab.PairAdjust{First: &gtab.GposValueRecord{XAdvance: -40}},
+				glyph.Pair{Left: 2, Right: 1}: &gtab.PairAdjust{First: &gtab.GposValueRecord{XAdvance: -10}, Second: &gtab.GposValueRecord{XPlacement: 3}},
+			}}},
 			{Meta: &gtab.LookupMetaInfo{LookupType: 1}, Subtables: []gtab.Subtable{&gtab.Gpos1_1{Cov: coverage.Table{4: 0}, Adjust: &gtab.GposValueRecord{XAdvance: 5}}}},
 		},
 	}
